@@ -272,6 +272,12 @@ package skiplist
 //@ ghost global gphys [int]*Node
 //@ ghost global gn int
 //@ ghost global goff [int]int
+//@ ghost global gidx [int]int
+//@ ghost global gpos [int]int
+//@ ufun fillpos(a [int]int, from int, n int) [int]int
+//@ axiom fillpos-def: forall a [int]int, from, n, i int {fillpos(a, from, n)[i]} :: fillpos(a, from, n)[i] == ite(from <= i && i < from + n, i - from, a[i])
+//@ ufun fill(a [int]int, from int, n int, v int) [int]int
+//@ axiom fill-def: forall a [int]int, from, n, v, i int {fill(a, from, n, v)[i]} :: fill(a, from, n, v)[i] == ite(from <= i && i < from + n, v, a[i])
 //@ ufun concat(a [int]ref, n int, b [int]ref) [int]ref
 //@ axiom concat-def: forall a [int]ref, n int, b [int]ref, i int {concat(a, n, b)[i]} :: concat(a, n, b)[i] == ite(i < n, a[i], b[i - n])
 
@@ -280,28 +286,36 @@ package skiplist
 //@     (forall k1, k2, i1, i2 int {segments[k1].sq0[i1], segments[k2].sq0[i2]} :: 0 <= k1 && k1 < k2 && k2 < len(segments) && 0 <= i1 && i1 < segments[k1].cnt && 0 <= i2 && i2 < segments[k2].cnt ==> segments[k1].sq0[i1] != segments[k2].sq0[i2])
 //@ pure storeFresh(s *Skiplist) bool = s != nil && s.head != nil && s.tail != nil && s.head != s.tail && s.head < brk() && s.tail < brk()
 //@ pure accNodes() bool = gn >= 0 && (forall i int {gphys[i]} :: 0 <= i && i < gn ==> gphys[i] != nil)
+//@ pure accDistinct() bool = forall i, j int {gphys[i], gphys[j]} :: 0 <= i && i < j && j < gn ==> gphys[i] != gphys[j]
 //@ pure accChain() bool = forall i, j int {gphys[i], gphys[j]} :: 0 <= i && j == i + 1 && j < gn ==> gphys[i].nx[0] == gphys[j] && !gphys[i].del[0]
 
 //@ func (*Builder).Assemble
 //@ props C18 C14
+//@ chain-ensures
 //@ requires b != nil && storeFresh(b.store) && segsOK(segments) && len(segments) < 1048576 && ptr(segments) + 8 * len(segments) <= brk()
 //@ requires[sentinels] forall k, i int {segments[k].sq0[i]} :: 0 <= k && k < len(segments) && 0 <= i && i < segments[k].cnt ==> segments[k].sq0[i] != b.store.head && segments[k].sq0[i] != b.store.tail
 //@ requires[sentinels-levels] forall k, l int {segments[k].tail[l]} :: 0 <= k && k < len(segments) && 0 <= l && l <= 32 ==> segments[k].tail[l] != b.store.head && segments[k].tail[l] != b.store.tail && segments[k].head[l] != b.store.head && segments[k].head[l] != b.store.tail
 //@ requires[stats] forall k int {segments[k]} :: 0 <= k && k < len(segments) ==> segments[k].sts != b.store.Stats
 //@ ghost-pre gn := 0
-//@ modifies heap(Node.$nx), heap(Node.$del), b.store.phys, b.store.n, gphys, gn, goff, heap($alive), heap($brk)
+//@ modifies heap(Node.$nx), heap(Node.$del), b.store.phys, b.store.n, gphys, gn, goff, gidx, gpos, heap($alive), heap($brk)
 //@ modifies heap(Stats.insertConflicts), heap(Stats.readConflicts), heap(Stats.softDeletes), heap(Stats.nodeAllocs), heap(Stats.nodeFrees), heap(Stats.usedBytes), heap(Stats.levelNodesCount)
 //@ loop 1 ghost goff[rangeindex] := gn
-//@ use concat-def
+//@ use concat-def fill-def fillpos-def
+//@ loop 1 ghost gidx := fill(gidx, gn, seg.cnt, rangeindex)
+//@ loop 1 ghost gpos := fillpos(gpos, gn, seg.cnt)
 //@ loop 1 ghost gphys := concat(gphys, gn, seg.sq0)
 //@ loop 1 ghost gn := gn + seg.cnt
 //@ loop 1 invariant[idx] -1 <= rangeindex && rangeindex < len(segments) && len(tail) == 33 && len(head) == 33 && ptr(tail) >= old(brk()) && ptr(head) >= old(brk()) && (ptr(tail) + 8 * 33 <= ptr(head) || ptr(head) + 8 * 33 <= ptr(tail))
+//@ loop 1 invariant[off-chain] (rangeindex >= 0 ==> goff[0] == 0 && goff[rangeindex] + segments[rangeindex].cnt == gn) && (rangeindex < 0 ==> gn == 0) &&
+//@     (forall k int {goff[k]} :: 0 <= k && k <= rangeindex ==> 0 <= goff[k] && goff[k] + segments[k].cnt <= gn) &&
+//@     (forall k, k2 int {goff[k], goff[k2]} :: 0 <= k && k2 == k + 1 && k2 <= rangeindex ==> goff[k2] == goff[k] + segments[k].cnt)
 //@ loop 1 invariant[acc-nodes] accNodes()
+//@ loop 1 invariant[owner-idx] forall i int {gidx[i]} :: 0 <= i && i < gn ==> 0 <= gidx[i] && gidx[i] <= rangeindex && 0 <= gpos[i] && goff[gidx[i]] + gpos[i] == i && gpos[i] < segments[gidx[i]].cnt
+//@ loop 1 invariant[owner] forall i int {gphys[i]} :: 0 <= i && i < gn ==> gphys[i] == segments[gidx[i]].sq0[gpos[i]]
+//@ loop 1 invariant[acc-distinct] accDistinct()
 //@ loop 1 invariant[acc-chain] accChain()
 //@ loop 1 invariant[no-sentinels] forall k int {tail[k]} :: 0 <= k && k <= 32 ==> tail[k] != b.store.head && tail[k] != b.store.tail && head[k] != b.store.head && head[k] != b.store.tail
 //@ loop 1 invariant[ends] (gn == 0 ==> head[0] == nil && tail[0] == nil) && (gn > 0 ==> head[0] == gphys[0] && tail[0] == gphys[gn - 1])
-//@ loop 1 invariant[offsets] (forall k int {goff[k]} :: 0 <= k && k <= rangeindex ==> 0 <= goff[k] && goff[k] + segments[k].cnt <= gn &&
-//@     (forall i int {segments[k].sq0[i]} :: 0 <= i && i < segments[k].cnt ==> gphys[goff[k] + i] == segments[k].sq0[i]))
 //@ loop 1 invariant[seg-no-sentinels] forall k, l2 int {segments[k].tail[l2]} :: 0 <= k && k < len(segments) && 0 <= l2 && l2 <= 32 ==> segments[k].tail[l2] != b.store.head && segments[k].tail[l2] != b.store.tail && segments[k].head[l2] != b.store.head && segments[k].head[l2] != b.store.tail
 //@ loop 1 invariant[segs] segsOK(segments) && storeFresh(b.store) && b.store == old(b.store)
 //@ loop 2 invariant[idx] 0 <= l && l <= 33 && 0 <= rangeindex + 1 && rangeindex + 1 < len(segments) && seg == segments[rangeindex + 1] && len(tail) == 33 && len(head) == 33 && ptr(tail) >= old(brk()) && ptr(head) >= old(brk()) && (ptr(tail) + 8 * 33 <= ptr(head) || ptr(head) + 8 * 33 <= ptr(tail))
@@ -315,7 +329,7 @@ package skiplist
 //@     head[0] == ite(gn > 0, gphys[0], ite(seg.cnt > 0, seg.sq0[0], nil)) && tail[0] == ite(seg.cnt > 0, seg.sq0[seg.cnt - 1], ite(gn > 0, gphys[gn - 1], nil))
 //@ loop 3 invariant[idx] 0 <= l && l <= 33 && len(tail) == 33 && len(head) == 33 && storeFresh(b.store) && b.store == old(b.store)
 //@ loop 3 invariant[no-sentinels] forall k int {tail[k]} :: 0 <= k && k <= 32 ==> tail[k] != b.store.head && tail[k] != b.store.tail && head[k] != b.store.head && head[k] != b.store.tail
-//@ loop 3 invariant[acc] accNodes() && accChain() && (forall i int {gphys[i]} :: 0 <= i && i < gn ==> gphys[i] != b.store.head && gphys[i] != b.store.tail)
+//@ loop 3 invariant[acc] accNodes() && accDistinct() && accChain() && (forall i int {gphys[i]} :: 0 <= i && i < gn ==> gphys[i] != b.store.head && gphys[i] != b.store.tail)
 //@ loop 3 invariant[ends] (gn == 0 ==> head[0] == nil && tail[0] == nil) && (gn > 0 ==> head[0] == gphys[0] && tail[0] == gphys[gn - 1])
 //@ loop 3 invariant[hooked-levels] forall k int {head[k]} :: 0 <= k && k < l ==> (head[k] != nil ==> b.store.head.nx[k] == head[k] && !b.store.head.del[k]) && (tail[k] != nil ==> tail[k].nx[k] == b.store.tail && !tail[k].del[k])
 //@ loop 3 invariant[hooked] l >= 1 && gn > 0 ==> b.store.head.nx[0] == gphys[0] && !b.store.head.del[0] && gphys[gn - 1].nx[0] == b.store.tail && !gphys[gn - 1].del[0]
@@ -325,6 +339,10 @@ package skiplist
 //@ ensures[result] result == old(b.store)
 //@ ensures[hooked-all-levels] forall k int {head[k]} :: 0 <= k && k <= 32 ==> (head[k] != nil ==> result.head.nx[k] == head[k] && !result.head.del[k]) && (tail[k] != nil ==> tail[k].nx[k] == result.tail && !tail[k].del[k])
 //@ ensures[count] result.n == gn && gn >= 0
+//@ ensures[content] (len(segments) == 0 ==> gn == 0) && (len(segments) > 0 ==> goff[0] == 0 && goff[len(segments) - 1] + segments[len(segments) - 1].cnt == gn) &&
+//@     (forall k, k2 int {goff[k], goff[k2]} :: 0 <= k && k2 == k + 1 && k2 < len(segments) ==> goff[k2] == goff[k] + segments[k].cnt) &&
+//@     (forall i int {gidx[i]} :: 0 <= i && i < gn ==> 0 <= gidx[i] && gidx[i] < len(segments) && 0 <= gpos[i] && goff[gidx[i]] + gpos[i] == i && gpos[i] < segments[gidx[i]].cnt) &&
+//@     (forall i int {result.phys[i]} :: 0 <= i && i < gn ==> result.phys[i] == segments[gidx[i]].sq0[gpos[i]])
 //@ ensures[chain] gn > 0 ==> result.head.nx[0] == result.phys[0] && (forall i, j int {result.phys[i], result.phys[j]} :: 0 <= i && j == i + 1 && j < result.n ==> result.phys[i].nx[0] == result.phys[j] && !result.phys[i].del[0]) && result.phys[result.n - 1].nx[0] == result.tail
 //@ nopanic
 
